@@ -93,8 +93,9 @@ func runC06(c *run.Ctx) {
 		kinds := []string{"iface", "any", "mixed-any", "reflect", "mixed-reflect"}
 		kind := kinds[i%len(kinds)]
 		refl := kind == "reflect" || kind == "mixed-reflect"
-		ec := newExecCase(r, gen.SchemaOpts{Args: !refl, Mutation: false},
-			gen.DocOpts{Frags: true, Dirs: i%3 == 0, Vars: true, Aliases: true, Depth: 2 + r.Intn(3), DupKeys: i%4 == 2})
+		// every third case may be a mutation: several root fields resolved one after the other, each failure its own entry
+		ec := newExecCase(r, gen.SchemaOpts{Args: !refl, Mutation: i%3 == 1},
+			gen.DocOpts{Frags: true, Dirs: i%3 == 0, Vars: true, Aliases: true, Depth: 2 + r.Intn(3), DupKeys: i%4 == 2, Mutation: i%3 == 1})
 		if refl && !back.ReflectFriendly(ec.S) {
 			continue
 		}
